@@ -278,7 +278,8 @@ class C05Check:
         if len(runs) == 2 and not violations:
             v0 = self._verdict(runs[0][0])
             v1 = self._verdict(runs[1][0])
-            if v0 != v1:
+            # --early-exit admits one difference: FAIL because a valid counterexample ended the run early
+            if v0 != v1 and not (vec["early_exit"] and "FAIL" in (v0, v1)):
                 violations.append(dict(oracle="C05:schedule-dependent-verdict", disc=f"{v0}-vs-{v1}",
                                        detail=f"same test and same solver replies, two schedules: verdict {v0} vs {v1}; vector {vec}"))
         out0 = runs[0][0]
@@ -297,7 +298,10 @@ class C05Check:
             if any(h["kind"] == "truth" and h["truth"] == "sat" and "f_evm_" in h["stdout"] for h in out.stub.history):
                 probes["abstract_model_seen"] = probes.get("abstract_model_seen", 0) + 1
         digest = "|".join(o.sim.digest() for o, _ in runs)
-        res = dict(violations=violations, inconclusive=None, faults=faults, probes=probes, digest=digest,
+        incon = None
+        if any(o.stub.wall_timeouts for o, _ in runs):
+            incon, violations = "truthful-solver-wall-timeout", []
+        res = dict(violations=violations, inconclusive=incon, faults=faults, probes=probes, digest=digest,
                    shape=repr(vec), nontrivial=probes["queries"] >= 1 and probes["switches"] >= 2,
                    sim_seconds=sum(o.sim.now for o, _ in runs), steps=sum(o.sim.steps for o, _ in runs),
                    descriptor=dict(vector=vec, solver=solver, preempt_k=preempt_k,
@@ -400,10 +404,12 @@ class C05Check:
                     main_thread_spawn_error = True
                 elif delivered_class(h) != "unsat":
                     n_stuck += 1
-        if vec["early_exit"] and valid_sat_delivered:
+        if main_thread_spawn_error:
+            # the stuck-path confirmation runs in the main thread: a spawn failure there aborts the test (ERROR);
+            # under --early-exit a valid counterexample may have ended the exploration before (FAIL)
+            expected = {"ERROR"} | ({"FAIL"} if (vec["early_exit"] and valid_sat_delivered) else set())
+        elif vec["early_exit"] and valid_sat_delivered:
             expected = {"FAIL"}
-        elif main_thread_spawn_error:
-            expected = {"ERROR"}
         elif incomplete and not vec["early_exit"]:
             expected = {"ERROR", "FAIL", "TIMEOUT"}  # cannot happen without early exit; anything but PASS
         elif counts["sat"] > 0:
